@@ -1019,7 +1019,7 @@ def gen_cases(ctx):
         cases.append(gen_hash_random(rng, rng.choice([20, 60, 150, 400])))
     # hash array: growth across the 4x threshold of the internal table, colliding families, truncate and reuse
     for rip, hp, top in [(0, HASH_PARAMS[0], 4200), (1, HASH_PARAMS[1], 1100), (0, HASH_PARAMS[5], 1300), (1, HASH_PARAMS[4], 500), (0, HASH_PARAMS[3], 300)] + (
-            [] if q else [(1, HASH_PARAMS[8], 4300), (0, HASH_PARAMS[6], 4200), (1, HASH_PARAMS[2], 600)]):
+            [] if q else [(1, HASH_PARAMS[8], 1100), (0, HASH_PARAMS[6], 1300), (1, HASH_PARAMS[2], 600), (0, HASH_PARAMS[1], 16400)]):   # the model reads positions through unary naturals: long collision chains cost n^3
         cases.append(gen_harr_grow(rng, rip, hp, top))
     for _ in range(120 if q else 3000):
         cases.append(gen_harr_random(rng, rng.choice([20, 60, 150, 400])))
